@@ -41,6 +41,8 @@ OBLIGATIONS = [
     "VgiVerif.C17.C17_400",
     "VgiVerif.C17.C17_identity_partial",
     "VgiVerif.C17.C17_decoded_identity",
+    "VgiVerif.C17.C17_decode_wiring",
+    "VgiVerif.C17.C17_415_disabled",
     "VgiVerif.C17.C17_total",
     "VgiVerif.C17.C17_terminates",
 ]
@@ -53,9 +55,10 @@ TRUSTED = [
     "the reference decoders of the oracle (zlib.decompressobj / ZstdDecompressor.decompressobj used directly)",
 ]
 RULE = (
-    "caps {None,300,4096,70000} x decode sets {zstd+gzip, gzip only} x routes {/echo,/gen/init,/gen/exchange,/health/init} x "
-    "Content-Length {honest, absent, lying} x coding tokens {absent,'',identity,zstd,gzip,br,deflate,junk,lists, case / "
-    "SP-HTAB variants} x bodies {plain, every frame kind of C18 (honest), bombs, truncated / garbage / lying declared size / "
+    "caps {None,300,4096,70000} x configurations {VGI_HTTP_DISABLE_ZSTD unset / '1' / non-disabling values} x "
+    "{compression_level default / None / 3 / 19 / 22} x routes {/echo,/gen/init,/gen/exchange,/health/init} x "
+    "Content-Length {honest, absent, lying} x coding values {absent,'',identity,zstd,gzip,br,deflate,junk, case / SP-HTAB variants, and non-token values: "
+    "lists of known+unknown codings, duplicates, empty items, ;q= parameters} x bodies {plain, every frame kind of C18 (honest), bombs, truncated / garbage / lying declared size / "
     "bit-flipped / trailing bytes} with plaintext sizes in {0,1,c-1,c,c+1,2c,c+CHUNK,...}; distinct by the whole request; "
     "non-trivial when a cap is configured or a coding is named"
 )
@@ -139,24 +142,40 @@ class Apps:
     def __exit__(self, *a: Any) -> None:
         self._res._get_request_stream = self._real
 
-    def app(self, cap: int | None, decode: str) -> Any:
+    def app(self, cap: int | None, env: str | None, level: Any) -> Any:
+        """`env` = value of VGI_HTTP_DISABLE_ZSTD while the app is built (None = unset); `level` = "default" (argument
+        omitted), "none" (compression_level=None: response compression off) or an int."""
         from vgi_rpc.http import make_wsgi_app
 
-        key = (cap, decode)
+        key = (cap, env, level)
         if key not in self.apps:
             old = os.environ.get("VGI_HTTP_DISABLE_ZSTD")
             try:
-                if decode == "gzip":
-                    os.environ["VGI_HTTP_DISABLE_ZSTD"] = "1"
-                else:
+                if env is None:
                     os.environ.pop("VGI_HTTP_DISABLE_ZSTD", None)
-                self.apps[key] = make_wsgi_app(self.server, token_key=b"k" * 32, max_request_bytes=cap)
+                else:
+                    os.environ["VGI_HTTP_DISABLE_ZSTD"] = env
+                kw: dict[str, Any] = {}
+                if level != "default":
+                    kw["compression_level"] = None if level == "none" else int(level)
+                self.apps[key] = make_wsgi_app(self.server, token_key=b"k" * 32, max_request_bytes=cap, **kw)
             finally:
                 if old is None:
                     os.environ.pop("VGI_HTTP_DISABLE_ZSTD", None)
                 else:
                     os.environ["VGI_HTTP_DISABLE_ZSTD"] = old
         return self.apps[key]
+
+
+def config_of(case: dict[str, Any]) -> tuple[str | None, Any, tuple[str, ...]]:
+    """(env value, compression level, codings the property expects to be enabled) of a case.
+    `decode: "gzip"` = the operator disabled zstd (VGI_HTTP_DISABLE_ZSTD=1); `decode: "both"` may carry an `env` value that
+    does *not* disable ("0", "", "true").  Response compression (`level`) must not change what requests are decoded."""
+    if case["decode"] == "gzip":
+        env: str | None = "1"
+    else:
+        env = case.get("env")
+    return env, case.get("level", "default"), (("gzip",) if env == "1" else ("zstd", "gzip"))
 
 
 def wsgi_call(app: Any, verb: str, path: str, wire: bytes, cl: int | None, ce: str | None) -> int:
@@ -286,7 +305,7 @@ class _Throttle:
 
 def check_request(ctx: Any, apps: Apps, case: dict[str, Any], oracle: bool = True) -> None:
     cap, decode = case["cap"], case["decode"]
-    enabled = ("zstd", "gzip") if decode == "both" else ("gzip",)
+    env, level, enabled = config_of(case)
     spec = dict(case["body"])
     if spec["kind"] in ("valid", "valid_padded"):
         spec["_valid"] = apps.valid_echo
@@ -296,7 +315,7 @@ def check_request(ctx: Any, apps: Apps, case: dict[str, Any], oracle: bool = Tru
     ce = case["ce"]
     verb, path = case.get("verb", "POST"), case["path"]
     short = case.get("short")
-    app = apps.app(cap, decode)
+    app = apps.app(cap, env, level)
     apps.captured.clear()
     rng = random.Random(f"short:{short}") if short is not None else None
     with cs.instrument(rng) as tr:
@@ -304,7 +323,7 @@ def check_request(ctx: Any, apps: Apps, case: dict[str, Any], oracle: bool = Tru
     rpc = apps.captured[0] if apps.captured else None
     tok = norm_token(ce)
     ctx.case(case, nontrivial=(cap is not None or bool(tok)),
-             tags=(f"cap:{cap}", f"decode:{decode}", f"cl:{clm if isinstance(clm, str) else 'lying'}", f"coding:{tok or '-'}"[:24],
+             tags=(f"cap:{cap}", f"decode:{decode}", f"level:{level}", f"env:{env}", f"cl:{clm if isinstance(clm, str) else 'lying'}", f"coding:{tok or '-'}"[:24],
                    f"body:{spec['kind']}" + (f":{spec['mangle']['type']}" if spec["kind"] == "mangled" else ""),
                    f"out:{'rpc' if rpc is not None else status}"))
 
@@ -367,7 +386,11 @@ def check_request(ctx: Any, apps: Apps, case: dict[str, Any], oracle: bool = Tru
     # ---------------- K ----------------------------------------------------------------------------------------
     if ctx.driver is None:
         return
-    a = {"cap": cap, "decode": [n.upper() for n in enabled], "exempt": [s2j("/health")], "verb": s2j(verb), "path": s2j(path),
+    from vgi_rpc._codec import available_encodings
+
+    # the model computes the decode set itself from the configuration (extracted wiring of make_wsgi_app)
+    a = {"cap": cap, "runtime": [e.name for e in available_encodings()], "zstd_env": s2j(env) if env is not None else None,
+         "level": None if level in ("default", "none") else int(level), "exempt": [s2j("/health")], "verb": s2j(verb), "path": s2j(path),
          "cl": cl, "wire": b2j(wire), "ce": s2j(ce) if ce is not None else None,
          "zstd": tr.zstd_desc(), "gzip": tr.gzip_desc(bool(wire[: cl if cl is not None else 0]))}
     reads = tr.zstd_requests() + tr.gzip_requests()
@@ -411,6 +434,32 @@ def _compare(ctx: Any, case: dict[str, Any], verb: str, status: int, rpc: bytes 
 # ------------------------------------------------------------------------------------------------ generators
 
 TOKENS = [None, "", "identity", "zstd", "gzip", "br", "deflate", "junk", "zstd, gzip", "gzip, identity", "x-gzip", "*"]
+CE_ITEMS = ["zstd", "gzip", "identity", "br", "deflate", "compress", "junk", ""]
+CE_PARAMS = ["", "", "", ";q=1.0", ";q=0", "; q=0.5", ";x=y", ";"]
+
+
+def gen_ce_list(rng: Any, codec: str | None) -> str:
+    """A Content-Encoding value that is *not* a single bare token: several codings (known + unknown, duplicates, empty
+    items) and / or parameters.  Content-Encoding states what was applied; none of these is a coding the server knows,
+    so every one of them must be refused — however an Accept-Encoding style list parser would read it."""
+    base = codec or rng.choice(["gzip", "zstd"])
+    shape = rng.choice(["param", "unknown_first", "unknown_last", "dup", "two_known", "empty_item", "random"])
+    if shape == "param":
+        return base + rng.choice([p for p in CE_PARAMS if p])
+    if shape == "unknown_first":
+        return rng.choice(["br", "deflate", "compress", "junk"]) + rng.choice([",", ", "]) + base
+    if shape == "unknown_last":
+        return base + rng.choice([",", ", "]) + rng.choice(["br", "deflate", "compress", "junk"])
+    if shape == "dup":
+        return base + rng.choice([",", ", "]) + base
+    if shape == "two_known":
+        return base + ", " + rng.choice(["gzip", "zstd", "identity"])
+    if shape == "empty_item":
+        return rng.choice(["," + base, base + ",", ", " + base, base + " ,", ",,"])
+    items = [rng.choice(CE_ITEMS) + rng.choice(CE_PARAMS) for _ in range(rng.choice([2, 2, 3]))]
+    return rng.choice([",", ", "]).join(items)
+
+
 VARIANTS = [lambda s: s, str.upper, str.title, lambda s: " " + s, lambda s: s + " ", lambda s: "\t" + s + "\t", lambda s: s[:1].upper() + s[1:]]
 
 
@@ -457,13 +506,20 @@ def gen_case(rng: Any, caps: list[int | None]) -> dict[str, Any]:
             else:
                 how = {"type": t, "hex": rng.choice(["00", "deadbeef", "1f8b0800", "28b52ffd"])}
             body = {"kind": "mangled", "codec": codec, "fkind": fkind, "plain": pspec, "mangle": how}
-        # mostly the matching coding, sometimes another token
-        ce = codec if rng.random() < 0.8 else rng.choice(TOKENS)
+        # mostly the matching coding, sometimes another token, sometimes a list / parameterised value around the matching coding
+        rr = rng.random()
+        ce = codec if rr < 0.7 else rng.choice(TOKENS) if rr < 0.85 else gen_ce_list(rng, codec)
     if ce and rng.random() < 0.3:
         ce = rng.choice(VARIANTS)(ce)
     clr = rng.random()
     cl: Any = "honest" if clr < 0.72 else "none" if clr < 0.86 else rng.choice([0, 1, max(0, n // 2), n + 10, (cap or 100) + 1])
     case = {"cap": cap, "decode": decode, "path": path, "cl": cl, "ce": ce, "body": body}
+    # configuration dimensions: response compression on / off / other level; env values that do and do not disable zstd
+    lv = rng.choice(["default", "default", "none", "none", 3, 19])
+    if lv != "default":
+        case["level"] = lv
+    if decode == "both" and rng.random() < 0.2:
+        case["env"] = rng.choice(["0", "", "true", "01"])
     if rng.random() < 0.3:
         case["short"] = rng.randrange(10**6)
     return case
@@ -503,6 +559,22 @@ CORPUS: list[dict[str, Any]] = [
      "body": {"kind": "valid_padded", "codec": "zstd", "fkind": "arrow", "pad": 1200, "cut": 12}},
     {"cap": 400000, "decode": "both", "path": "/echo", "cl": "honest", "ce": "gzip",
      "body": {"kind": "valid_padded", "codec": "gzip", "fkind": "repo", "pad": 1200, "cut": 4}},
+    # the operator's switch and response compression are independent: zstd disabled + compression_level=None still refuses zstd
+    {"cap": 4096, "decode": "gzip", "level": "none", "path": "/echo", "cl": "honest", "ce": "zstd",
+     "body": {"kind": "frame", "codec": "zstd", "fkind": "repo", "plain": {"pattern": "text", "n": 100}}},
+    {"cap": None, "decode": "gzip", "level": "none", "path": "/echo", "cl": "honest", "ce": "zstd",
+     "body": {"kind": "frame", "codec": "zstd", "fkind": "streaming", "plain": {"pattern": "text", "n": 100}}},
+    {"cap": 4096, "decode": "gzip", "level": "none", "path": "/echo", "cl": "honest", "ce": "gzip",
+     "body": {"kind": "frame", "codec": "gzip", "fkind": "repo", "plain": {"pattern": "text", "n": 100}}},
+    {"cap": 4096, "decode": "both", "level": "none", "path": "/echo", "cl": "honest", "ce": "zstd",
+     "body": {"kind": "frame", "codec": "zstd", "fkind": "repo", "plain": {"pattern": "text", "n": 100}}},
+    {"cap": 4096, "decode": "both", "env": "0", "level": 3, "path": "/echo", "cl": "honest", "ce": "zstd",
+     "body": {"kind": "frame", "codec": "zstd", "fkind": "repo", "plain": {"pattern": "text", "n": 100}}},
+    # size-less zstd frames with a large window (what ultra levels / long-distance matching write) are valid bodies
+    {"cap": 4096, "decode": "both", "path": "/echo", "cl": "honest", "ce": "zstd",
+     "body": {"kind": "frame", "codec": "zstd", "fkind": "stream_wlog24", "plain": {"pattern": "text", "n": 300}}},
+    {"cap": 300, "decode": "both", "path": "/echo", "cl": "honest", "ce": "zstd",
+     "body": {"kind": "frame", "codec": "zstd", "fkind": "stream_ldm27", "plain": {"pattern": "text", "n": 300}}},
     # requests without Content-Length (open finding)
     {"cap": 300, "decode": "both", "path": "/echo", "cl": "none", "ce": None, "body": {"kind": "plain", "plain": {"pattern": "zeros", "n": 5000}}},
     {"cap": 4096, "decode": "both", "path": "/echo", "cl": "none", "ce": None, "body": {"kind": "valid"}},
@@ -548,6 +620,29 @@ def run(ctx: Any) -> None:
                     for decode in ("both", "gzip"):
                         check_request(ctx, apps, {"cap": 4096, "decode": decode, "path": "/echo", "cl": "honest",
                                                   "ce": var(ce) if ce else ce, "body": body})
+        # Content-Encoding values that are lists / carry parameters / repeat a coding: never a known coding, always 415
+        ce_lists = ["br, gzip", "gzip, br", "gzip, deflate", "compress,gzip", "gzip;q=1.0", "gzip; q=0", "gzip;", "gzip, gzip", "gzip,gzip",
+                    ",gzip", "gzip,", ", gzip", "junk, zstd", "zstd, junk", "zstd;q=1", "zstd, zstd", "zstd,", "identity, gzip", "gzip, identity",
+                    "identity;q=1", "identity, identity", "br, identity", "br;q=gzip", "gzip zstd", ",", ";", ",,gzip,,"]
+        for ce in ce_lists:
+            for codec in ("gzip", "zstd"):
+                for decode, level in (("both", "default"), ("gzip", "none")):
+                    cs_: dict[str, Any] = {"cap": 4096, "decode": decode, "path": "/echo", "cl": "honest", "ce": ce,
+                                           "body": {"kind": "frame", "codec": codec, "fkind": "repo", "plain": {"pattern": "text", "n": 200}}}
+                    if level != "default":
+                        cs_["level"] = level
+                    check_request(ctx, apps, cs_)
+        # every configuration x a zstd and a gzip request
+        for decode, env in (("both", None), ("both", "0"), ("both", ""), ("gzip", "1")):
+            for level in ("default", "none", 1, 3, 22):
+                for codec in ("zstd", "gzip"):
+                    cs_ = {"cap": rng.choice([None, 4096]), "decode": decode, "path": "/echo", "cl": "honest", "ce": codec,
+                           "body": {"kind": "frame", "codec": codec, "fkind": "repo", "plain": {"pattern": "text", "n": 200}}}
+                    if level != "default":
+                        cs_["level"] = level
+                    if env is not None and decode == "both":
+                        cs_["env"] = env
+                    check_request(ctx, apps, cs_)
         # exact boundaries for every frame kind
         for cap in (300, 70000) if not thorough else (0, 1, 300, 4096, 65535, 65536, 65537, 70000):
             for codec, kinds in (("zstd", c18.ZSTD_KINDS), ("gzip", c18.GZIP_KINDS)):
